@@ -584,11 +584,11 @@ theorem figDimOk_eq (x : Raw) (h : figDimInDomain x = true) : figDimOk x = figDi
     simp [figDimOk, figDimLegal, Raw.elems, hv v h]
   | flat vs =>
     simp only [figDimInDomain, Bool.and_eq_true] at h
-    simp only [figDimOk, figDimLegal, Raw.elems]
+    simp only [figDimOk, figDimLegal, Raw.elems, h.1, Bool.true_and]
     exact all_congr_mem (fun v hm => hv v (List.all_eq_true.mp h.2 v hm))
   | tuple vs =>
     simp only [figDimInDomain, Bool.and_eq_true] at h
-    simp only [figDimOk, figDimLegal, Raw.elems]
+    simp only [figDimOk, figDimLegal, Raw.elems, h.1, Bool.true_and]
     exact all_congr_mem (fun v hm => hv v (List.all_eq_true.mp h.2 v hm))
 
 theorem optDimOk_eq (o : Option Raw) (h : optDimDomain o = true) : optDimOk o = !optDimIllegal o := by
